@@ -415,7 +415,9 @@ class A(Adapter):
             # deadline-aware: when this load would collect the *last* food and there is slack before the time limit, wait in
             # half of the cases, so that the completing load can fall on the very step of the limit (two endings on one step)
             tl = int(getattr(env, "time_limit", 0) or 0)
-            if len(left) == 1 and tl and int(s.step_count) + 1 < tl <= int(s.step_count) + 12 and (int(s.step_count) + int(np.asarray(s.key).reshape(-1)[-1])) % 2 == 0:
+            # (which episodes wait is a function of the episode's key - constant during an episode - so a waiting episode keeps
+            # waiting until the last step before the limit)
+            if len(left) == 1 and tl and int(s.step_count) + 1 < tl and int(np.asarray(s.key).reshape(-1)[-1]) % 2 == 0:
                 return act  # everybody waits (no-op)
             for i in adj:
                 act[i] = LOAD
